@@ -131,6 +131,7 @@ class GDataConverter(XMLSchemaConverter):
                 if xsd_element.is_matching(tag):
                     obj = value
                 elif not self.namespaces and local_name(tag) == xsd_element.local_name:
+                    tag = xsd_element.name  # matched by local name only
                     obj = value
                 else:
                     tag = xsd_element.name
